@@ -118,7 +118,15 @@ func main() {
 	}
 	nontrivial := 0
 	for hi := 0; hi < n; hi++ {
-		f, err := fox.New()
+		var ropts []fox.GlobalOption
+		maxP := 0
+		if hi%7 == 2 {
+			// a small wildcard limit: patterns over it (by a named parameter OR a catch-all) are invalid
+			maxP = rnd.Range(1, 3)
+			ropts = append(ropts, fox.WithMaxRouteParams(uint16(maxP)))
+			st.Count("router:max-route-params")
+		}
+		f, err := fox.New(ropts...)
 		hx.Fatal(err)
 		w := &world{f: f, rid: map[*fox.Route]uint64{}}
 		tr := newTracker() // what the calls' own results say is registered (independent of every read API)
@@ -281,6 +289,13 @@ func main() {
 			var removed *fox.Route
 			var id uint64
 			ps, hs, perr := f.VerifParseRoute(pat)
+			if wild := strings.Count(pat, "{"); maxP > 0 && ((perr == nil && wild > maxP) || (errors.Is(perr, fox.ErrTooManyParams) && wild <= maxP)) && readFailures < 3 {
+				// the harness' own count of wildcards against the configured limit
+				readFailures++
+				cs.Add("(CIter {| ic_tree := []; ic_set := []; ic_queries := [QHas (S2B \"validity\") (S2B \"wildcard limit not enforced\") true] |})",
+					fmt.Sprintf("WILDCARD LIMIT: WithMaxRouteParams(%d), pattern %q has %d wildcards, parseRoute says: %v", maxP, pat, wild, perr))
+				st.Count("limit:failures")
+			}
 			switch kind {
 			case "KBegin":
 				w.txn = f.Txn(true)
@@ -1065,6 +1080,40 @@ func readsAgree(f *fox.Router, txn *fox.Txn, tr *tracker, pool, methods []string
 			r := v.route(k[0], k[1])
 			if (r != nil) != v.set[k] || (r != nil && r.Pattern() != k[1]) {
 				return fmt.Sprintf("%s.Route(%s,%q) non-nil=%v registered=%v", v.name, k[0], k[1], r != nil, v.set[k])
+			}
+		}
+	}
+	// iterators of the open write transaction and of its snapshot (Txn.Iter snapshots the transaction:
+	// not at every step)
+	if txn != nil && withSnap {
+		its := map[string]fox.Iter{"Txn(write).Iter()": txn.Iter()}
+		if snap := txn.Snapshot(); snap != nil {
+			defer snap.Abort()
+			its["Txn(write).Snapshot().Iter()"] = snap.Iter()
+		}
+		for name, it := range its {
+			n := 0
+			for m, r := range it.All() {
+				n++
+				if !tr.cur()[[2]string{m, r.Pattern()}] {
+					return fmt.Sprintf("%s.All() yields %s %q which is not registered in the transaction", name, m, r.Pattern())
+				}
+			}
+			if n != len(tr.cur()) {
+				return fmt.Sprintf("%s.All() yields %d routes, the transaction holds %d", name, n, len(tr.cur()))
+			}
+			for k := range keys {
+				cnt := 0
+				for range it.Routes(func(yield func(string) bool) { yield(k[0]) }, k[1]) {
+					cnt++
+				}
+				want := 0
+				if tr.cur()[k] {
+					want = 1
+				}
+				if cnt != want {
+					return fmt.Sprintf("%s.Routes(%s,%q) yields %d routes, registered in the transaction=%v", name, k[0], k[1], cnt, tr.cur()[k])
+				}
 			}
 		}
 	}
